@@ -207,6 +207,7 @@ class World:
     self._inv_before = dict(config._INVERSE_REGISTRY)
     self._hooks_before = list(config._FINALIZE_HOOKS)
     self._hard_reset()
+    self._in_helper = False
     self.reserved = set()   # selectors that the behaviour being replayed registers later
     self.published = []     # module names this world put into sys.modules
     self.twins = {}         # dotted selector of a twin registration -> selector that owns the shared function
@@ -578,9 +579,35 @@ class World:
   def project_store(self, store):
     return {str(k): sorted([p, core.jdump(self.to_spec(v))] for p, v in d.items()) for k, d in store.items()}
 
+  # actions whose effect is on process-wide state only: every third one is carried out by another thread (the
+  # configuration, its lock, the registry and the constants are shared by all threads; only the scope stack is per thread)
+  CROSS_THREAD = ('Bind', 'Finalize', 'Register', 'Clear', 'DefineConstant', 'Query', 'QueryConst')
+
   def apply(self, o):
     """Executes the action described by a specification `out` record; returns the real
     observable result as a dict with the same keys."""
+    if (o['op'] in self.CROSS_THREAD and not self.cms and not self.unlock_cms and not self._in_helper
+        and (self.step + self.pool_seed) % 3 == 0 and len(self.gin.current_scope()) == 0):
+      import threading
+      box = {}
+
+      def run():
+        self._in_helper = True
+        try:
+          box['res'] = self._apply(o)
+        except BaseException as e:  # pylint: disable=broad-except
+          box['exc'] = e
+        finally:
+          self._in_helper = False
+      t = threading.Thread(target=run, name='gin-helper')
+      t.start()
+      t.join()
+      if 'exc' in box:
+        raise box['exc']
+      return box['res']
+    return self._apply(o)
+
+  def _apply(self, o):
     op = o['op']
     gin = self.gin
     world = self
